@@ -300,9 +300,9 @@ Theorem range_expand_shape o args size c kk :
   Forall scalar args -> Forall inrv args -> exact (hd VN args) ->
   Z.of_nat (length args) < 2 ^ 31 ->
   convert_to_range o args size = CYes c kk ->
-  exists n, kk = Z.of_nat n /\ (5 <= n)%nat /\ expand c = Some (firstn n args) /\
+  exists n, kk = Z.of_nat n /\ (5 <= n <= length args)%nat /\ expand c = Some (firstn n args) /\
     ((exists y, c = [VRep (Z.of_nat n) 0; hd VN args; VSpc y]) /\ firstn n args = repeat (hd VN args) n \/
-     (exists k d x y, c = [VRep (Z.of_nat n) 1; mk k d; mk k x; VSpc y])).
+     (exists k d x y, c = [VRep (Z.of_nat n) 1; mk k d; mk k x; VSpc y] /\ inr k d /\ hd VN args = mk k x /\ d <> 0)).
 Proof.
   intros Hsc Hin Hex Hlen Hc. unfold convert_to_range in Hc.
   destruct ((size <? 5) || (hd_type args =? 45) || negb (compress o)); [discriminate|].
@@ -334,6 +334,9 @@ Proof.
       as (n & -> & -> & Hn & Hcr).
     { intros j Hj. destruct j as [|[|j]]; [assumption|assumption|lia]. }
     destruct (Z.of_nat n <? 5) eqn:E5; [discriminate|]. inversion Hc; subst c kk. clear Hc.
+    assert (Hnl0 : (n <= length args)%nat).
+    { assert (Hsome : nth_error args (n - 1) <> None) by (rewrite (Hcr (n - 1)%nat) by lia; discriminate).
+      apply nth_error_Some in Hsome. lia. }
     exists n. split; [reflexivity|]. split; [lia|].
     assert (Hrep : firstn n args = repeat a0 n).
     { rewrite (firstn_map_seq (fun _ => a0) args n), map_const_seq; [reflexivity|].
@@ -364,15 +367,19 @@ Proof.
       rewrite E1. f_equal. f_equal. rewrite wr_add_r. replace (x + (y - x)) with y by lia.
       symmetry. now apply wr_id. }
     destruct (Z.of_nat n <? 5) eqn:E5; [discriminate|]. inversion Hc; subst c kk. clear Hc.
-    exists n. split; [reflexivity|]. split; [lia|].
     pose proof (chained_closed args k (wr k (y - x)) x (n - 1) H0 Hx Hch) as Hcl.
     assert (Hnl : (n <= length args)%nat).
     { assert (Hsome : nth_error args (n - 1) <> None) by (rewrite Hcl by lia; discriminate).
       apply nth_error_Some in Hsome. lia. }
+    exists n. split; [reflexivity|]. split; [lia|].
     rewrite Ea. change (Z.to_nat 1) with 1%nat. cbn [firstn app]. rewrite <- Ea.
     rewrite expand_delta by lia. rewrite Nat2Z.id.
     split; [f_equal; symmetry; apply firstn_map_seq; intros j Hj; apply Hcl; lia|].
-    right. eexists _, _, _, _. reflexivity.
+    right. eexists _, _, _, _. split; [reflexivity|]. split; [apply wr_inr|]. split; [now rewrite Ea|].
+    (* the first two values differ, so the step is not 0 *)
+    rewrite Hty in Ee. rewrite Z.eqb_refl, eq_mk in Ee. inversion Ee as [Exy]. apply Z.eqb_neq in Exy.
+    intros Hz. assert (Hyx : wr k (x + wr k (y - x)) = y) by (rewrite wr_add_r; replace (x + (y - x)) with y by lia; now apply wr_id).
+    rewrite Hz, Z.add_0_r, (wr_id k x Hx) in Hyx. congruence.
 Qed.
 
 Theorem range_expand o args size c kk :
@@ -382,5 +389,5 @@ Theorem range_expand o args size c kk :
   exists n, kk = Z.of_nat n /\ (5 <= n)%nat /\ expand c = Some (firstn n args).
 Proof.
   intros H1 H2 H3 H4 H5. destruct (range_expand_shape o args size c kk H1 H2 H3 H4 H5) as (n & A & B & C & _).
-  exists n. auto.
+  exists n. repeat split; try assumption; lia.
 Qed.
